@@ -733,3 +733,26 @@ func Quiesce() {
 		return true
 	})
 }
+
+// CallerFunc returns the chain of the nearest functions of the packages under
+// test on the caller's stack ("inner<outer<outer2"), for deadlock reports.
+func CallerFunc() string {
+	var pcs [24]uintptr
+	n := runtime.Callers(3, pcs[:])
+	frames := runtime.CallersFrames(pcs[:n])
+	var out []string
+	for {
+		f, more := frames.Next()
+		if strings.Contains(f.Function, "hugelgupf/p9/") {
+			fn := f.Function[strings.LastIndex(f.Function, "/")+1:]
+			out = append(out, fn)
+			if len(out) == 4 {
+				break
+			}
+		}
+		if !more {
+			break
+		}
+	}
+	return strings.Join(out, "<")
+}
